@@ -132,3 +132,771 @@ Ltac buf_consts :=
 
 Lemma buf_w64_small z : 0 <= z < 2 ^ 64 -> buf_w64 z = z.
 Proof. intros H. unfold buf_w64. apply Z.mod_small. exact H. Qed.
+
+(* ------------------------------------------------------------------------------------- *)
+(* The invariant                                                                           *)
+(* ------------------------------------------------------------------------------------- *)
+Definition buf_shape_fresh (b : cbuf) : Prop :=
+  b_hasdata b = false /\ b_hasabuf b = false /\ b_mem b = [] /\ b_dlen b = 0 /\ b_alloc b = 0.
+Definition buf_shape_const (b : cbuf) : Prop :=
+  b_hasdata b = true /\ b_hasabuf b = false /\ buf_zlen (b_mem b) = b_dlen b /\ b_alloc b = 0 /\
+  0 < b_dlen b < BUF_ALLOC_LIMIT.
+Definition buf_shape_dyn (b : cbuf) : Prop :=
+  b_hasdata b = true /\ b_hasabuf b = true /\ buf_zlen (b_mem b) = b_alloc b /\
+  b_dlen b < b_alloc b /\ b_alloc b < BUF_ALLOC_LIMIT.
+
+(* offset <= data_len, data_len < alloc_buf_len (dynamic buffer: one spare byte for the
+   terminator of finish_str), tag = none or tag <= offset *)
+Definition buf_inv (b : cbuf) : Prop :=
+  0 <= b_off b <= b_dlen b /\
+  (b_tag b = BUF_SIZE_MAX \/ 0 <= b_tag b <= b_off b) /\
+  (buf_shape_fresh b \/ buf_shape_const b \/ buf_shape_dyn b).
+
+Lemma buf_inv_mem_len b : buf_inv b -> b_dlen b <= buf_zlen (b_mem b) /\ b_dlen b < BUF_ALLOC_LIMIT.
+Proof.
+  intros (Ho & _ & [Hs | [Hs | Hs]]).
+  - destruct Hs as (_ & _ & Hm & Hd & _). rewrite Hm, Hd. buf_consts. cbn. lia.
+  - destruct Hs as (_ & _ & Hm & _ & Hd). lia.
+  - destruct Hs as (_ & _ & Hm & Hd & Ha). lia.
+Qed.
+
+Lemma buf_inv_tag_ne b : buf_inv b -> b_tag b <> BUF_SIZE_MAX -> 0 <= b_tag b <= b_off b.
+Proof. intros (_ & [Ht | Ht] & _) Hne; [contradiction | exact Ht]. Qed.
+
+Lemma buf_is_const_eq b : buf_is_const b = Ok (b2z (b_hasdata b && negb (b_hasabuf b))).
+Proof. unfold buf_is_const, c_ares_buf_is_const. destruct (b_hasdata b), (b_hasabuf b); reflexivity. Qed.
+
+Lemma buf_with_off_same b : buf_with_off b (b_off b) = b.
+Proof. destruct b; reflexivity. Qed.
+Lemma buf_with_tag_same b : buf_with_tag b (b_tag b) = b.
+Proof. destruct b; reflexivity. Qed.
+Lemma buf_with_dlen_same b : buf_with_dlen b (b_dlen b) = b.
+Proof. destruct b; reflexivity. Qed.
+
+(* ---- abstraction ---- *)
+Lemma buf_data_zlen b : buf_inv b -> buf_zlen (buf_data b) = b_dlen b.
+Proof.
+  intros Hi. pose proof (buf_inv_mem_len b Hi) as [Hm _]. destruct Hi as (Ho & _).
+  unfold buf_data. apply buf_take_zlen. lia.
+Qed.
+
+Lemma buf_remaining_zlen b : buf_inv b -> buf_zlen (buf_remaining b) = b_dlen b - b_off b.
+Proof.
+  intros Hi. pose proof (buf_data_zlen b Hi) as Hd. destruct Hi as (Ho & _).
+  unfold buf_remaining. rewrite buf_drop_zlen by lia. lia.
+Qed.
+
+Lemma buf_consumed_zlen b : buf_inv b -> buf_zlen (buf_consumed b) = b_off b.
+Proof.
+  intros Hi. pose proof (buf_data_zlen b Hi) as Hd. destruct Hi as (Ho & _).
+  unfold buf_consumed. apply buf_take_zlen. lia.
+Qed.
+
+Lemma buf_consumed_remaining b : buf_consumed b ++ buf_remaining b = buf_data b.
+Proof. apply buf_take_drop. Qed.
+
+(* the remaining bytes as a slice of the block *)
+Lemma buf_remaining_mem b : buf_inv b ->
+  buf_remaining b = buf_take (b_dlen b - b_off b) (buf_drop (b_off b) (b_mem b)).
+Proof.
+  intros (Ho & _). unfold buf_remaining, buf_data. apply buf_drop_take. lia.
+Qed.
+
+Lemma buf_abs_pre b : s_pre (buf_abs b) = buf_consumed b. Proof. reflexivity. Qed.
+Lemma buf_abs_post b : s_post (buf_abs b) = buf_remaining b. Proof. reflexivity. Qed.
+
+(* states that differ only in the cursor *)
+Lemma buf_data_with_off b o : buf_data (buf_with_off b o) = buf_data b.
+Proof. reflexivity. Qed.
+Lemma buf_data_with_tag b t : buf_data (buf_with_tag b t) = buf_data b.
+Proof. reflexivity. Qed.
+
+Lemma buf_inv_with_off b o : buf_inv b -> 0 <= o <= b_dlen b ->
+  (b_tag b = BUF_SIZE_MAX \/ b_tag b <= o) -> buf_inv (buf_with_off b o).
+Proof.
+  intros (Ho & Ht & Hs) Hr Htag. split; [exact Hr|]. split.
+  - cbn. destruct Ht as [Ht | Ht]; [left; exact Ht|]. destruct Htag as [Htag | Htag]; [left; exact Htag|]. right. lia.
+  - exact Hs.
+Qed.
+
+Lemma buf_advance_abs b n : buf_inv b -> 0 <= n <= b_dlen b - b_off b ->
+  buf_abs (buf_with_off b (b_off b + n)) = spec_advance (buf_abs b) n.
+Proof.
+  intros Hi Hn. pose proof (buf_data_zlen b Hi) as Hd. destruct Hi as (Ho & _).
+  unfold buf_abs, spec_advance. cbn [s_pre s_post s_tag s_const b_tag b_hasdata b_hasabuf buf_with_off].
+  f_equal.
+  - unfold buf_consumed, buf_remaining. rewrite buf_data_with_off. cbn [b_off buf_with_off].
+    apply buf_take_add; lia.
+  - unfold buf_remaining. rewrite buf_data_with_off. cbn [b_off buf_with_off].
+    symmetry. apply buf_drop_drop; lia.
+Qed.
+
+(* ------------------------------------------------------------------------------------- *)
+(* Cursor operations (through the generated functions)                                     *)
+(* ------------------------------------------------------------------------------------- *)
+Lemma buf_len_ok b : buf_inv b -> buf_len b = Ok (b_dlen b - b_off b).
+Proof.
+  intros Hi. pose proof (buf_inv_mem_len b Hi) as [_ Hl]. destruct Hi as (Ho & _).
+  unfold buf_len, c_ares_buf_len. f_equal. buf_consts. apply Z.mod_small. lia.
+Qed.
+
+Theorem buf_len_refines b : buf_inv b -> buf_len b = Ok (spec_len (buf_abs b)).
+Proof.
+  intros Hi. rewrite buf_len_ok by exact Hi. unfold spec_len. rewrite buf_abs_post.
+  rewrite buf_remaining_zlen by exact Hi. reflexivity.
+Qed.
+
+Lemma buf_consume_ok b n : buf_inv b -> 0 <= n ->
+  buf_consume b n = Ok (if b_dlen b - b_off b <? n then (ARES_EBADRESP, b)
+                        else (ARES_SUCCESS, buf_with_off b (b_off b + n))).
+Proof.
+  intros Hi Hn. unfold buf_consume. rewrite buf_len_ok by exact Hi.
+  pose proof (buf_inv_mem_len b Hi) as [_ Hl]. destruct Hi as (Ho & _).
+  cbn [bind]. unfold c_ares_buf_consume.
+  destruct (Z.ltb_spec (b_dlen b - b_off b) n) as [Hlt | Hge]; cbn [bind fst snd].
+  - rewrite buf_with_off_same. reflexivity.
+  - f_equal. f_equal. f_equal. buf_consts. apply Z.mod_small. lia.
+Qed.
+
+Theorem buf_consume_refines b n : buf_inv b -> 0 <= n ->
+  exists st b', buf_consume b n = Ok (st, b') /\ buf_inv b' /\
+                (st, buf_abs b') = spec_consume (buf_abs b) n.
+Proof.
+  intros Hi Hn. rewrite buf_consume_ok by assumption.
+  unfold spec_consume, spec_len. rewrite buf_abs_post, buf_remaining_zlen by exact Hi.
+  destruct (Z.ltb_spec (b_dlen b - b_off b) n) as [Hlt | Hge].
+  - exists ARES_EBADRESP, b. auto.
+  - exists ARES_SUCCESS, (buf_with_off b (b_off b + n)). split; [reflexivity|]. split.
+    + destruct Hi as (Ho & Ht & Hs). apply buf_inv_with_off; [split; [exact Ho | split; [exact Ht | exact Hs]] | lia |].
+      destruct Ht as [Ht | Ht]; [left; exact Ht | right; lia].
+    + f_equal. apply buf_advance_abs; [exact Hi | destruct Hi as (Ho & _); lia].
+Qed.
+
+Lemma buf_off_not_max b : buf_inv b -> (b_off b =? BUF_SIZE_MAX) = false.
+Proof.
+  intros Hi. pose proof (buf_inv_mem_len b Hi) as [_ Hl]. destruct Hi as (Ho & _).
+  apply Z.eqb_neq. buf_consts. lia.
+Qed.
+
+Theorem buf_tag_refines b : buf_inv b ->
+  exists b', buf_tag b = Ok b' /\ buf_inv b' /\ buf_abs b' = spec_tag (buf_abs b).
+Proof.
+  intros Hi. exists (buf_with_tag b (b_off b)). split; [reflexivity|]. split.
+  - destruct Hi as (Ho & Ht & Hs). split; [exact Ho|]. split; [right; cbn; lia | exact Hs].
+  - unfold buf_abs, spec_tag, spec_position. cbn [s_pre s_post s_tag s_const b_tag b_hasdata b_hasabuf buf_with_tag].
+    rewrite buf_off_not_max by exact Hi.
+    f_equal. f_equal. symmetry. apply buf_consumed_zlen. exact Hi.
+Qed.
+
+Lemma buf_tag_rollback_ok b :
+  buf_tag_rollback b = Ok (if b_tag b =? BUF_SIZE_MAX then (ARES_EFORMERR, b)
+                           else (ARES_SUCCESS, buf_with_tag (buf_with_off b (b_tag b)) BUF_SIZE_MAX)).
+Proof.
+  unfold buf_tag_rollback, c_ares_buf_tag_rollback. fold BUF_SIZE_MAX.
+  destruct (b_tag b =? BUF_SIZE_MAX); cbn [bind fst snd]; [|reflexivity].
+  destruct b; reflexivity.
+Qed.
+
+(* tag, any fetches/consumes, rollback: position and remaining bytes are restored exactly *)
+Theorem buf_tag_rollback_refines b : buf_inv b ->
+  exists st b', buf_tag_rollback b = Ok (st, b') /\ buf_inv b' /\
+                (st, buf_abs b') = spec_tag_rollback (buf_abs b).
+Proof.
+  intros Hi. rewrite buf_tag_rollback_ok. unfold spec_tag_rollback.
+  cbn [buf_abs s_tag].
+  destruct (Z.eqb_spec (b_tag b) BUF_SIZE_MAX) as [He | Hne].
+  - exists ARES_EFORMERR, b. auto.
+  - pose proof (buf_inv_tag_ne b Hi Hne) as Ht.
+    pose proof (buf_consumed_zlen b Hi) as Hc.
+    exists ARES_SUCCESS, (buf_with_tag (buf_with_off b (b_tag b)) BUF_SIZE_MAX).
+    split; [reflexivity|]. split.
+    + destruct Hi as (Ho & _ & Hs). split; [cbn; lia|]. split; [left; reflexivity | exact Hs].
+    + f_equal. unfold buf_abs. cbn [s_pre s_post s_tag s_const b_tag b_hasdata b_hasabuf buf_with_tag buf_with_off].
+      rewrite Z.eqb_refl. f_equal.
+      * unfold buf_consumed. cbn [b_off buf_with_tag buf_with_off]. fold (buf_data b).
+        change (buf_data (buf_with_tag (buf_with_off b (b_tag b)) BUF_SIZE_MAX)) with (buf_data b).
+        symmetry. apply buf_take_take. lia.
+      * unfold buf_remaining. cbn [b_off buf_with_tag buf_with_off].
+        change (buf_data (buf_with_tag (buf_with_off b (b_tag b)) BUF_SIZE_MAX)) with (buf_data b).
+        rewrite <- (buf_consumed_remaining b) at 1.
+        rewrite buf_drop_app_l by lia. reflexivity.
+Qed.
+
+Theorem buf_tag_clear_refines b : buf_inv b ->
+  exists st b', buf_tag_clear b = Ok (st, b') /\ buf_inv b' /\
+                (st, buf_abs b') = spec_tag_clear (buf_abs b).
+Proof.
+  intros Hi. unfold buf_tag_clear, c_ares_buf_tag_clear, spec_tag_clear. fold BUF_SIZE_MAX.
+  cbn [buf_abs s_tag].
+  destruct (Z.eqb_spec (b_tag b) BUF_SIZE_MAX) as [He | Hne]; cbn [bind fst snd].
+  - exists ARES_EFORMERR, b. rewrite buf_with_tag_same. auto.
+  - exists ARES_SUCCESS, (buf_with_tag b BUF_SIZE_MAX). split; [reflexivity|]. split.
+    + destruct Hi as (Ho & _ & Hs). split; [exact Ho|]. split; [left; reflexivity | exact Hs].
+    + reflexivity.
+Qed.
+
+Theorem buf_tag_length_refines b : buf_inv b -> buf_tag_length b = Ok (spec_tag_length (buf_abs b)).
+Proof.
+  intros Hi. unfold buf_tag_length, c_ares_buf_tag_length, spec_tag_length. fold BUF_SIZE_MAX.
+  cbn [buf_abs s_tag s_pre].
+  destruct (Z.eqb_spec (b_tag b) BUF_SIZE_MAX) as [He | Hne]; [reflexivity|].
+  pose proof (buf_inv_tag_ne b Hi Hne) as Ht. pose proof (buf_inv_mem_len b Hi) as [_ Hl].
+  rewrite buf_consumed_zlen by exact Hi. destruct Hi as (Ho & _).
+  f_equal. buf_consts. apply Z.mod_small. lia.
+Qed.
+
+Theorem buf_get_position_refines b : buf_inv b -> buf_get_position b = Ok (spec_position (buf_abs b)).
+Proof.
+  intros Hi. unfold buf_get_position, c_ares_buf_get_position, spec_position.
+  rewrite buf_abs_pre, buf_consumed_zlen by exact Hi. reflexivity.
+Qed.
+
+Lemma buf_set_position_ok b idx :
+  buf_set_position b idx = Ok (if idx >? b_dlen b then (ARES_EFORMERR, b)
+                               else (ARES_SUCCESS, buf_with_off b idx)).
+Proof.
+  unfold buf_set_position, c_ares_buf_set_position.
+  destruct (idx >? b_dlen b); cbn [bind fst snd]; [rewrite buf_with_off_same|]; reflexivity.
+Qed.
+
+(* set_position: absolute repositioning; the invariant survives exactly when the caller does
+   not move below an active tag (spec_set_position_contract) *)
+Theorem buf_set_position_refines b idx : buf_inv b -> 0 <= idx ->
+  spec_set_position_contract (buf_abs b) idx = true ->
+  exists st b', buf_set_position b idx = Ok (st, b') /\ buf_inv b' /\
+                (st, buf_abs b') = spec_set_position (buf_abs b) idx.
+Proof.
+  intros Hi Hidx Hc. rewrite buf_set_position_ok. unfold spec_set_position.
+  rewrite buf_abs_pre, buf_abs_post, buf_consumed_remaining, buf_data_zlen by exact Hi.
+  destruct (Z.gtb_spec idx (b_dlen b)) as [Hgt | Hle].
+  - exists ARES_EFORMERR, b. auto.
+  - exists ARES_SUCCESS, (buf_with_off b idx). split; [reflexivity|]. split.
+    + apply buf_inv_with_off; [exact Hi | lia |].
+      unfold spec_set_position_contract in Hc. cbn [buf_abs s_tag s_pre s_post] in Hc.
+      destruct (Z.eqb_spec (b_tag b) BUF_SIZE_MAX) as [He | Hne]; [left; exact He|]. right.
+      rewrite buf_consumed_remaining, buf_data_zlen in Hc by exact Hi.
+      apply orb_true_iff in Hc. destruct Hc as [Hc | Hc]; lia.
+    + reflexivity.
+Qed.
+
+(* ------------------------------------------------------------------------------------- *)
+(* Reading                                                                                 *)
+(* ------------------------------------------------------------------------------------- *)
+Lemma buf_fetch_ok b : buf_inv b ->
+  buf_fetch b = (b_dlen b - b_off b =? 0, b_dlen b - b_off b).
+Proof.
+  intros Hi. pose proof (buf_inv_mem_len b Hi) as [_ Hl]. destruct Hi as (Ho & _ & Hs).
+  unfold buf_fetch. destruct Hs as [Hs | [Hs | Hs]].
+  - destruct Hs as (Hd & _ & _ & Hdl & _). rewrite Hd. cbn. replace (b_dlen b - b_off b) with 0 by lia. reflexivity.
+  - destruct Hs as (Hd & _). rewrite Hd. cbn [negb].
+    rewrite buf_w64_small by (buf_consts; lia).
+    destruct (Z.eqb_spec (b_dlen b - b_off b) 0) as [He | Hne]; [rewrite He|]; reflexivity.
+  - destruct Hs as (Hd & _). rewrite Hd. cbn [negb].
+    rewrite buf_w64_small by (buf_consts; lia).
+    destruct (Z.eqb_spec (b_dlen b - b_off b) 0) as [He | Hne]; [rewrite He|]; reflexivity.
+Qed.
+
+Lemma buf_read_data b at_ n : buf_inv b -> 0 <= at_ -> 0 <= n -> at_ + n <= b_dlen b ->
+  buf_read b at_ n = Ok (buf_take n (buf_drop at_ (buf_data b))).
+Proof.
+  intros Hi Ha Hn Hle. pose proof (buf_inv_mem_len b Hi) as [Hm _].
+  unfold buf_read.
+  replace ((0 <=? at_) && (0 <=? n) && (at_ + n <=? buf_zlen (b_mem b))) with true
+    by (symmetry; rewrite !andb_true_iff; repeat split; apply Z.leb_le; lia).
+  f_equal. unfold buf_data. rewrite buf_drop_take by lia. rewrite buf_take_take by lia. reflexivity.
+Qed.
+
+Lemma buf_read_remaining b n : buf_inv b -> 0 <= n <= b_dlen b - b_off b ->
+  buf_read b (b_off b) n = Ok (buf_take n (buf_remaining b)).
+Proof.
+  intros Hi Hn. destruct Hi as (Ho & Hrest).
+  apply buf_read_data; [split; [exact Ho | exact Hrest] | lia | lia | lia].
+Qed.
+
+Theorem buf_peek_refines b : buf_inv b -> buf_peek b = Ok (s_post (buf_abs b)).
+Proof.
+  intros Hi. unfold buf_peek. rewrite buf_fetch_ok by exact Hi. cbn [fst snd]. rewrite buf_abs_post.
+  pose proof (buf_remaining_zlen b Hi) as Hr.
+  destruct (Z.eqb_spec (b_dlen b - b_off b) 0) as [He | Hne].
+  - f_equal. symmetry. apply buf_zlen_0. lia.
+  - rewrite buf_read_remaining; [| exact Hi | destruct Hi as (Ho & _); lia].
+    f_equal. apply buf_take_all. lia.
+Qed.
+
+Lemma buf_take_1 {A} (l : list A) : buf_take 1 l = match l with [] => [] | x :: _ => [x] end.
+Proof. destruct l; reflexivity. Qed.
+
+Theorem buf_peek_byte_refines b : buf_inv b -> buf_peek_byte b = Ok (spec_peek_byte (buf_abs b)).
+Proof.
+  intros Hi. unfold buf_peek_byte, spec_peek_byte. rewrite buf_fetch_ok by exact Hi. cbn [fst snd].
+  rewrite buf_abs_post. pose proof (buf_remaining_zlen b Hi) as Hr.
+  destruct (Z.eqb_spec (b_dlen b - b_off b) 0) as [He | Hne].
+  - replace (buf_remaining b) with (@nil Z) by (symmetry; apply buf_zlen_0; lia). reflexivity.
+  - rewrite buf_read_remaining; [| exact Hi | destruct Hi as (Ho & _); lia]. cbn [bind].
+    rewrite buf_take_1. destruct (buf_remaining b) as [|x r] eqn:Er; [|reflexivity].
+    rewrite buf_zlen_nil in Hr. destruct Hi as (Ho & _). lia.
+Qed.
+
+Theorem buf_fetch_bytes_refines b n : buf_inv b -> 0 <= n ->
+  exists st b' out, buf_fetch_bytes b n = Ok (st, b', out) /\ buf_inv b' /\
+                    (st, buf_abs b', out) = spec_fetch_bytes (buf_abs b) n.
+Proof.
+  intros Hi Hn. unfold buf_fetch_bytes, spec_fetch_bytes, spec_len.
+  rewrite buf_fetch_ok by exact Hi. cbn [fst snd].
+  rewrite buf_abs_post, buf_remaining_zlen by exact Hi.
+  destruct ((n =? 0) || (b_dlen b - b_off b <? n)) eqn:Eg.
+  - exists ARES_EBADRESP, b, []. auto.
+  - apply orb_false_iff in Eg. destruct Eg as [E0 Elt].
+    apply Z.eqb_neq in E0. apply Z.ltb_ge in Elt.
+    rewrite buf_read_remaining by (try exact Hi; lia). cbn [bind].
+    rewrite buf_consume_ok by (try exact Hi; lia).
+    replace (b_dlen b - b_off b <? n) with false by (symmetry; apply Z.ltb_ge; lia).
+    cbn [bind fst snd].
+    exists ARES_SUCCESS, (buf_with_off b (b_off b + n)), (buf_take n (buf_remaining b)).
+    split; [reflexivity|]. split.
+    + destruct Hi as (Ho & Ht & Hs). apply buf_inv_with_off; [split; [exact Ho | split; [exact Ht | exact Hs]] | lia |].
+      destruct Ht as [Ht | Ht]; [left; exact Ht | right; lia].
+    + f_equal. f_equal. apply buf_advance_abs; [exact Hi | lia].
+Qed.
+
+(* ------------------------------------------------------------------------------------- *)
+(* Big-endian integers                                                                     *)
+(* ------------------------------------------------------------------------------------- *)
+Definition buf_bytes_ok (l : list Z) : Prop := Forall (fun x => 0 <= x < 256) l.
+
+Lemma buf_bytes_ok_take n l : buf_bytes_ok l -> buf_bytes_ok (buf_take n l).
+Proof.
+  unfold buf_bytes_ok, buf_take. intros H. rewrite <- (firstn_skipn (Z.to_nat n) l) in H.
+  apply Forall_app in H. apply H.
+Qed.
+Lemma buf_bytes_ok_drop n l : buf_bytes_ok l -> buf_bytes_ok (buf_drop n l).
+Proof.
+  unfold buf_bytes_ok, buf_drop. intros H. rewrite <- (firstn_skipn (Z.to_nat n) l) in H.
+  apply Forall_app in H. apply H.
+Qed.
+Lemma buf_bytes_ok_app l1 l2 : buf_bytes_ok l1 -> buf_bytes_ok l2 -> buf_bytes_ok (l1 ++ l2).
+Proof. unfold buf_bytes_ok. intros H1 H2. apply Forall_app. split; assumption. Qed.
+Lemma buf_bytes_ok_app_inv l1 l2 : buf_bytes_ok (l1 ++ l2) -> buf_bytes_ok l1 /\ buf_bytes_ok l2.
+Proof. unfold buf_bytes_ok. intros H. apply Forall_app in H. exact H. Qed.
+
+Lemma buf_lor_shiftl a b n : 0 <= n -> 0 <= b < 2 ^ n -> Z.lor (Z.shiftl a n) b = a * 2 ^ n + b.
+Proof.
+  intros Hn Hb.
+  assert (Z.land (Z.shiftl a n) b = 0) as Hl.
+  { apply Z.bits_inj'. intros m Hm. rewrite Z.land_spec, Z.bits_0.
+    destruct (Z.lt_ge_cases m n) as [Hlt | Hge].
+    - rewrite Z.shiftl_spec_low by lia. reflexivity.
+    - destruct (Z.eq_dec b 0) as [-> | Hne]; [rewrite Z.bits_0; apply andb_false_r|].
+      rewrite (Z.bits_above_log2 b m); [apply andb_false_r | lia |].
+      apply Z.log2_lt_pow2; [lia|]. apply Z.lt_le_trans with (2 ^ n); [lia|]. apply Z.pow_le_mono_r; lia. }
+  rewrite <- Z.lxor_lor by exact Hl. rewrite <- Z.add_nocarry_lxor by exact Hl.
+  rewrite Z.shiftl_mul_pow2 by lia. reflexivity.
+Qed.
+Lemma buf_land_255 x : Z.land x 255 = x mod 256.
+Proof. change 255 with (Z.ones 8). rewrite Z.land_ones by lia. reflexivity. Qed.
+Lemma buf_land_65535 x : Z.land x 65535 = x mod 65536.
+Proof. change 65535 with (Z.ones 16). rewrite Z.land_ones by lia. reflexivity. Qed.
+
+Lemma buf_be16_decode p0 p1 : 0 <= p0 < 256 -> 0 <= p1 < 256 ->
+  Z.land (Z.lor (Z.shiftl p0 8) p1) 65535 = spec_be_value 0 [p0; p1].
+Proof.
+  intros H0 H1. rewrite buf_lor_shiftl by (change (2 ^ 8) with 256; lia).
+  rewrite buf_land_65535. change (2 ^ 8) with 256. cbn [spec_be_value].
+  rewrite Z.mod_small by lia. lia.
+Qed.
+
+Lemma buf_be32_decode p0 p1 p2 p3 : 0 <= p0 < 256 -> 0 <= p1 < 256 -> 0 <= p2 < 256 -> 0 <= p3 < 256 ->
+  Z.lor (Z.lor (Z.lor (Z.shiftl p0 24) (Z.shiftl p1 16)) (Z.shiftl p2 8)) p3 = spec_be_value 0 [p0; p1; p2; p3].
+Proof.
+  intros H0 H1 H2 H3.
+  replace (Z.shiftl p0 24) with (Z.shiftl (Z.shiftl (Z.shiftl p0 8) 8) 8)
+    by (rewrite !Z.shiftl_shiftl by lia; reflexivity).
+  replace (Z.shiftl p1 16) with (Z.shiftl (Z.shiftl p1 8) 8)
+    by (rewrite !Z.shiftl_shiftl by lia; reflexivity).
+  rewrite <- !Z.shiftl_lor.
+  change (2 ^ 8) with 256.
+  rewrite (buf_lor_shiftl p0 p1 8) by (change (2 ^ 8) with 256; lia). change (2 ^ 8) with 256.
+  rewrite (buf_lor_shiftl (p0 * 256 + p1) p2 8) by (change (2 ^ 8) with 256; lia). change (2 ^ 8) with 256.
+  rewrite (buf_lor_shiftl ((p0 * 256 + p1) * 256 + p2) p3 8) by (change (2 ^ 8) with 256; lia). change (2 ^ 8) with 256.
+  cbn [spec_be_value]. lia.
+Qed.
+
+Lemma buf_zlen_2 {A} (l : list A) : buf_zlen l = 2 -> exists a b, l = [a; b].
+Proof.
+  unfold buf_zlen. destruct l as [|a [|b [|c r]]]; simpl length; intros H; try lia. eauto.
+Qed.
+Lemma buf_zlen_4 {A} (l : list A) : buf_zlen l = 4 -> exists a b c d, l = [a; b; c; d].
+Proof.
+  unfold buf_zlen. destruct l as [|a [|b [|c [|d [|e r]]]]]; simpl length; intros H; try lia. eauto 6.
+Qed.
+
+(* fetch_be16 / fetch_be32 remove 2 / 4 bytes from the front and return their big-endian
+   value; fewer bytes remaining: EBADRESP and nothing changes *)
+Theorem buf_fetch_be16_refines b : buf_inv b -> buf_bytes_ok (buf_remaining b) ->
+  exists st b' v, buf_fetch_be16 b = Ok (st, b', v) /\ buf_inv b' /\
+                  (st, buf_abs b', v) = spec_fetch_be 2 (buf_abs b).
+Proof.
+  intros Hi Hb. unfold buf_fetch_be16, spec_fetch_be, spec_len.
+  rewrite buf_fetch_ok by exact Hi. cbn [fst snd].
+  rewrite buf_abs_post, buf_remaining_zlen by exact Hi.
+  destruct (Z.ltb_spec (b_dlen b - b_off b) 2) as [Hlt | Hge].
+  - exists ARES_EBADRESP, b, 0. auto.
+  - rewrite buf_read_remaining by (try exact Hi; lia). cbn [bind].
+    pose proof (buf_remaining_zlen b Hi) as Hr.
+    assert (buf_zlen (buf_take 2 (buf_remaining b)) = 2) as H2 by (apply buf_take_zlen; lia).
+    destruct (buf_zlen_2 _ H2) as (p0 & p1 & Ep). rewrite Ep.
+    rewrite buf_consume_ok by (try exact Hi; lia).
+    replace (b_dlen b - b_off b <? 2) with false by (symmetry; apply Z.ltb_ge; lia).
+    cbn [bind fst snd].
+    exists ARES_SUCCESS, (buf_with_off b (b_off b + 2)), (Z.land (Z.lor (Z.shiftl p0 8) p1) 65535).
+    split; [reflexivity|]. split.
+    + destruct Hi as (Ho & Ht & Hs). apply buf_inv_with_off; [split; [exact Ho | split; [exact Ht | exact Hs]] | lia |].
+      destruct Ht as [Ht | Ht]; [left; exact Ht | right; lia].
+    + pose proof (buf_bytes_ok_take 2 _ Hb) as Hb2. rewrite Ep in Hb2.
+      inversion Hb2 as [|x0 l0 Hp0 Hb3]; subst. inversion Hb3 as [|x1 l1 Hp1 _]; subst.
+      rewrite buf_be16_decode by assumption.
+      f_equal. f_equal. apply buf_advance_abs; [exact Hi | lia].
+Qed.
+
+Theorem buf_fetch_be32_refines b : buf_inv b -> buf_bytes_ok (buf_remaining b) ->
+  exists st b' v, buf_fetch_be32 b = Ok (st, b', v) /\ buf_inv b' /\
+                  (st, buf_abs b', v) = spec_fetch_be 4 (buf_abs b).
+Proof.
+  intros Hi Hb. unfold buf_fetch_be32, spec_fetch_be, spec_len.
+  rewrite buf_fetch_ok by exact Hi. cbn [fst snd].
+  rewrite buf_abs_post, buf_remaining_zlen by exact Hi.
+  destruct (Z.ltb_spec (b_dlen b - b_off b) 4) as [Hlt | Hge].
+  - exists ARES_EBADRESP, b, 0. auto.
+  - rewrite buf_read_remaining by (try exact Hi; lia). cbn [bind].
+    pose proof (buf_remaining_zlen b Hi) as Hr.
+    assert (buf_zlen (buf_take 4 (buf_remaining b)) = 4) as H4 by (apply buf_take_zlen; lia).
+    destruct (buf_zlen_4 _ H4) as (p0 & p1 & p2 & p3 & Ep). rewrite Ep.
+    rewrite buf_consume_ok by (try exact Hi; lia).
+    replace (b_dlen b - b_off b <? 4) with false by (symmetry; apply Z.ltb_ge; lia).
+    cbn [bind fst snd].
+    eexists ARES_SUCCESS, (buf_with_off b (b_off b + 4)), _.
+    split; [reflexivity|]. split.
+    + destruct Hi as (Ho & Ht & Hs). apply buf_inv_with_off; [split; [exact Ho | split; [exact Ht | exact Hs]] | lia |].
+      destruct Ht as [Ht | Ht]; [left; exact Ht | right; lia].
+    + pose proof (buf_bytes_ok_take 4 _ Hb) as Hb2. rewrite Ep in Hb2.
+      inversion Hb2 as [|x0 l0 Hp0 Hb3]; subst. inversion Hb3 as [|x1 l1 Hp1 Hb4]; subst.
+      inversion Hb4 as [|x2 l2 Hp2 Hb5]; subst. inversion Hb5 as [|x3 l3 Hp3 _]; subst.
+      rewrite buf_be32_decode by assumption.
+      f_equal. f_equal. apply buf_advance_abs; [exact Hi | lia].
+Qed.
+
+(* ------------------------------------------------------------------------------------- *)
+(* reclaim                                                                                 *)
+(* ------------------------------------------------------------------------------------- *)
+Lemma buf_abs_const_flag b : s_const (buf_abs b) = b_hasdata b && negb (b_hasabuf b).
+Proof. reflexivity. Qed.
+
+Lemma buf_shape_not_dyn_trim b : buf_inv b -> b_hasabuf b = false -> spec_trim (buf_abs b) = buf_abs b.
+Proof.
+  intros Hi Ha. destruct Hi as (Ho & Ht & [Hs | [Hs | Hs]]).
+  - destruct Hs as (Hd & _ & Hm & Hdl & _).
+    assert (b_off b = 0) as Hoff by lia.
+    unfold spec_trim, buf_abs. cbn [s_const s_tag s_pre s_post]. rewrite Hd, Ha. cbn [andb negb].
+    assert (buf_consumed b = []) as Hc by (unfold buf_consumed; rewrite Hoff; apply buf_take_0; lia).
+    rewrite Hc.
+    destruct (Z.eqb_spec (b_tag b) BUF_SIZE_MAX) as [He | Hne]; [reflexivity|].
+    destruct Ht as [Ht | Ht]; [contradiction|]. replace (b_tag b) with 0 by lia. reflexivity.
+  - destruct Hs as (Hd & _). unfold spec_trim. rewrite buf_abs_const_flag, Hd, Ha. reflexivity.
+  - destruct Hs as (_ & Ha' & _). congruence.
+Qed.
+
+(* reclaim never changes the remaining bytes nor the tagged region; what it discards is
+   exactly the consumed bytes before the tag (before the cursor when no tag is set) *)
+Theorem buf_reclaim_refines b : buf_inv b ->
+  exists b', buf_reclaim b = Ok b' /\ buf_inv b' /\ buf_abs b' = spec_trim (buf_abs b) /\
+             b_alloc b' = b_alloc b /\ b_dlen b' <= b_dlen b /\
+             b_hasdata b' = b_hasdata b /\ b_hasabuf b' = b_hasabuf b /\
+             (buf_bytes_ok (b_mem b) -> buf_bytes_ok (b_mem b')).
+Proof.
+  intros Hi. unfold buf_reclaim. rewrite buf_is_const_eq. cbn [bind].
+  destruct (b_hasabuf b) eqn:Ha.
+  2:{ (* fresh or const: nothing happens *)
+    assert (buf_reclaim_id : (if negb (b2z (b_hasdata b && negb false) =? 0) then Ok b
+                              else if negb false then Ok b else Ok b) = Ok b)
+      by (destruct (negb (b2z (b_hasdata b && negb false) =? 0)); reflexivity).
+    exists b. split.
+    - destruct (negb (b2z (b_hasdata b && negb false) =? 0)); reflexivity.
+    - split; [exact Hi|]. split; [symmetry; apply buf_shape_not_dyn_trim; assumption|].
+      repeat split; auto; lia. }
+  rewrite andb_false_r. cbn [b2z Z.eqb negb].
+  pose proof (buf_inv_mem_len b Hi) as [Hm Hl].
+  pose proof (buf_consumed_zlen b Hi) as Hcz.
+  destruct Hi as (Ho & Ht & Hs).
+  assert (buf_shape_dyn b) as Hdyn.
+  { destruct Hs as [Hs | [Hs | Hs]]; [destruct Hs as (_ & Ha' & _); congruence | destruct Hs as (_ & Ha' & _); congruence | exact Hs]. }
+  destruct Hdyn as (Hd & _ & Hmz & Hda & Hal).
+  set (prefix := if negb (b_tag b =? BUF_SIZE_MAX) && (b_tag b <? b_off b) then b_tag b else b_off b).
+  assert (0 <= prefix <= b_off b /\
+          (b_tag b = BUF_SIZE_MAX -> prefix = b_off b) /\
+          (b_tag b <> BUF_SIZE_MAX -> prefix = b_tag b)) as (Hp & Hpn & Hpt).
+  { unfold prefix. destruct (Z.eqb_spec (b_tag b) BUF_SIZE_MAX) as [He | Hne]; cbn [negb andb].
+    - repeat split; intros; try lia; try contradiction.
+    - destruct Ht as [Ht | Ht]; [contradiction|].
+      destruct (Z.ltb_spec (b_tag b) (b_off b)); repeat split; intros; try lia; try contradiction. }
+  destruct (Z.eqb_spec prefix 0) as [Hp0 | Hpne].
+  - (* nothing to discard *)
+    exists b. split; [reflexivity|]. split; [split; [exact Ho | split; [exact Ht | exact Hs]]|].
+    split; [| repeat split; auto; lia].
+    unfold spec_trim. rewrite buf_abs_const_flag, Hd, Ha. cbn [andb negb].
+    unfold buf_abs. cbn [s_tag s_pre s_post]. rewrite Hd, Ha. cbn [andb negb].
+    destruct (Z.eqb_spec (b_tag b) BUF_SIZE_MAX) as [He | Hne].
+    + f_equal. specialize (Hpn He). unfold buf_consumed. apply buf_take_0. lia.
+    + specialize (Hpt Hne). rewrite <- Hpt, Hp0. rewrite buf_drop_0 by lia. reflexivity.
+  - rewrite buf_w64_small by (buf_consts; lia).
+    replace (buf_zlen (b_mem b) <? prefix + (b_dlen b - prefix)) with false
+      by (symmetry; apply Z.ltb_ge; lia).
+    set (ds := b_dlen b - prefix).
+    assert (buf_zlen (buf_take ds (buf_drop prefix (b_mem b))) = ds) as Hmv.
+    { apply buf_take_zlen. rewrite buf_drop_zlen by lia. unfold ds. lia. }
+    eexists. split; [reflexivity|].
+    (* the new data = the old data without its first [prefix] bytes *)
+    assert (forall mem' dl o t hd ha, buf_data (mkBuf (buf_take ds (buf_drop prefix (b_mem b)) ++ mem') ds dl o t hd ha)
+                             = buf_drop prefix (buf_data b)) as Hdata.
+    { intros. unfold buf_data. cbn [b_mem b_dlen]. rewrite buf_take_app_exact by (symmetry; exact Hmv).
+      rewrite buf_drop_take by lia. reflexivity. }
+    split; [|split; [|repeat split]].
+    + (* invariant *)
+      split; [cbn [b_off b_dlen]; rewrite buf_w64_small by (buf_consts; lia); unfold ds; lia|].
+      split.
+      * cbn [b_tag b_off]. destruct (Z.eqb_spec (b_tag b) BUF_SIZE_MAX) as [He | Hne]; cbn [negb]; [left; exact He|].
+        right. specialize (Hpt Hne). rewrite !buf_w64_small by (buf_consts; lia). lia.
+      * right. right. unfold buf_shape_dyn. cbn [b_hasdata b_hasabuf b_mem b_dlen b_alloc].
+        assert (buf_zlen (buf_take ds (buf_drop prefix (b_mem b)) ++ buf_drop ds (b_mem b)) = b_alloc b) as Hz.
+        { rewrite buf_zlen_app, Hmv. rewrite buf_drop_zlen by (unfold ds; lia). lia. }
+        repeat split; try assumption; try lia; unfold ds; lia.
+    + (* abstraction *)
+      unfold spec_trim. rewrite buf_abs_const_flag, Hd, Ha. cbn [andb negb].
+      unfold buf_abs at 1. cbn [b_tag b_hasdata b_hasabuf]. cbn [andb negb].
+      unfold buf_consumed, buf_remaining. rewrite Hdata. cbn [b_off].
+      rewrite buf_w64_small by (buf_consts; lia).
+      assert (buf_drop (b_off b - prefix) (buf_drop prefix (buf_data b)) = buf_remaining b) as Hrem.
+      { rewrite buf_drop_drop by lia. unfold buf_remaining. f_equal. lia. }
+      assert (buf_take (b_off b - prefix) (buf_drop prefix (buf_data b)) = buf_drop prefix (buf_consumed b)) as Hcon.
+      { unfold buf_consumed. rewrite buf_drop_take by lia. reflexivity. }
+      rewrite Hrem, Hcon.
+      cbn [buf_abs s_tag s_pre s_post].
+      destruct (Z.eqb_spec (b_tag b) BUF_SIZE_MAX) as [He | Hne]; cbn [negb].
+      * rewrite He. cbn [Z.eqb]. rewrite (Hpn He). rewrite buf_drop_all by lia. reflexivity.
+      * specialize (Hpt Hne). rewrite Hpt. rewrite Z.sub_diag.
+        change (buf_w64 0) with 0. cbn [Z.eqb]. reflexivity.
+    + cbn [b_dlen]. unfold ds. lia.
+    + intros Hb. cbn [b_mem]. apply buf_bytes_ok_app.
+      * apply buf_bytes_ok_take, buf_bytes_ok_drop, Hb.
+      * apply buf_bytes_ok_drop, Hb.
+Qed.
+
+(* ------------------------------------------------------------------------------------- *)
+(* ensure_space: the growth loop terminates (64 units of fuel are never exhausted)         *)
+(* ------------------------------------------------------------------------------------- *)
+Lemma buf_grow_loop_ok fuel : forall a0 dlen needed,
+  0 < a0 < 2 ^ 63 -> 0 <= dlen <= a0 -> 0 < needed -> dlen + needed <= 2 ^ 63 ->
+  (fuel >= 1)%nat -> dlen + needed <= a0 * 2 ^ Z.of_nat fuel ->
+  exists a, buf_grow_loop fuel a0 dlen needed = Ok a /\ dlen + needed <= a /\ 2 * a0 <= a /\
+            a < 2 ^ 64 /\ (a = 2 * a0 \/ a < 2 * (dlen + needed)).
+Proof.
+  induction fuel as [|f IH]; intros a0 dlen needed Ha0 Hd Hn Hsum Hf Hcap; [lia|].
+  cbn [buf_grow_loop].
+  change (2 ^ 63) with 9223372036854775808 in *.
+  assert (buf_w64 (a0 * 2) = 2 * a0) as Ea by (rewrite buf_w64_small by (change (2 ^ 64) with 18446744073709551616; lia); lia).
+  rewrite Ea.
+  assert (buf_w64 (2 * a0 - dlen) = 2 * a0 - dlen) as Er by (apply buf_w64_small; change (2 ^ 64) with 18446744073709551616; lia).
+  rewrite Er.
+  destruct (Z.ltb_spec (2 * a0 - dlen) needed) as [Hlt | Hge].
+  - assert (1 <= Z.of_nat f) as Hf1.
+    { destruct f as [|f']; [|lia]. exfalso. rewrite Nat2Z.inj_succ, Z.pow_succ_r in Hcap by lia.
+      change (2 ^ Z.of_nat 0) with 1 in Hcap. lia. }
+    destruct (IH (2 * a0) dlen needed) as (a & Hl & H1 & H2 & H3 & H4); try lia.
+    + rewrite Nat2Z.inj_succ, Z.pow_succ_r in Hcap by lia. lia.
+    + exists a. split; [exact Hl|]. repeat split; lia.
+  - exists (2 * a0). split; [reflexivity|]. change (2 ^ 64) with 18446744073709551616. repeat split; try lia.
+Qed.
+
+Lemma buf_junk_block_zlen junk from to : from <= to -> buf_zlen (buf_junk_block junk from to) = to - from.
+Proof. intros H. unfold buf_junk_block, buf_zlen. rewrite map_length, seq_length. lia. Qed.
+
+Lemma buf_junk_block_bytes junk from to : (forall i, 0 <= junk i < 256) -> buf_bytes_ok (buf_junk_block junk from to).
+Proof.
+  intros Hj. unfold buf_junk_block, buf_bytes_ok. apply Forall_forall. intros x Hx.
+  apply in_map_iff in Hx. destruct Hx as (i & <- & _). apply Hj.
+Qed.
+
+(* states with the same data, cursor and tag have the same abstract value *)
+Lemma buf_abs_same_data b1 b2 :
+  buf_data b1 = buf_data b2 -> b_off b1 = b_off b2 -> b_tag b1 = b_tag b2 ->
+  (b_hasdata b1 && negb (b_hasabuf b1)) = (b_hasdata b2 && negb (b_hasabuf b2)) ->
+  buf_abs b1 = buf_abs b2.
+Proof.
+  intros Hd Ho Ht Hc. unfold buf_abs, buf_consumed, buf_remaining. rewrite Hd, Ho, Ht, Hc. reflexivity.
+Qed.
+
+Definition buf_not_const (b : cbuf) : Prop := (b_hasdata b && negb (b_hasabuf b)) = false.
+
+(* ensure_space(needed): EFORMERR on a const buffer; otherwise the abstract value is unchanged
+   up to a reclaim, and on success there is room for needed+1 more bytes *)
+Theorem buf_ensure_space_refines junk ok b n : buf_inv b -> 0 <= n < BUF_ALLOC_LIMIT ->
+  exists st b', buf_ensure_space junk ok b n = Ok (st, b') /\ buf_inv b' /\
+    (buf_abs b' = buf_abs b \/ buf_abs b' = spec_trim (buf_abs b)) /\
+    ((forall i, 0 <= junk i < 256) -> buf_bytes_ok (b_mem b) -> buf_bytes_ok (b_mem b')) /\
+    ((st = ARES_EFORMERR /\ s_const (buf_abs b) = true /\ b' = b) \/
+     (st = ARES_SUCCESS /\ buf_not_const b /\ b_hasabuf b' = true /\ b_dlen b' + n < b_alloc b') \/
+     (st = ARES_ENOMEM /\ buf_not_const b /\
+      (ok = false \/ BUF_ALLOC_LIMIT <= 2 * b_alloc b \/ BUF_ALLOC_LIMIT <= 2 * (b_dlen b + n + 1)))).
+Proof.
+  intros Hi Hn. unfold buf_ensure_space. rewrite buf_is_const_eq. cbn [bind].
+  destruct (b_hasdata b && negb (b_hasabuf b)) eqn:Ec; cbn [b2z Z.eqb negb].
+  { exists ARES_EFORMERR, b. split; [reflexivity|]. split; [exact Hi|]. split; [left; reflexivity|].
+    split; [auto|]. left. auto. }
+  pose proof (buf_inv_mem_len b Hi) as [Hm Hl].
+  assert (0 <= b_alloc b < BUF_ALLOC_LIMIT /\ b_dlen b <= b_alloc b) as [Hal Hdl].
+  { destruct Hi as (Ho & _ & [Hs | [Hs | Hs]]).
+    - destruct Hs as (_ & _ & _ & Hd0 & Ha0). rewrite Ha0, Hd0. buf_consts. lia.
+    - destruct Hs as (Hd & Ha & _). rewrite Hd, Ha in Ec. discriminate.
+    - destruct Hs as (_ & _ & _ & Hd0 & Ha0). lia. }
+  assert (0 <= b_off b <= b_dlen b) as Ho by (destruct Hi as (Ho & _); exact Ho).
+  rewrite (buf_w64_small (n + 1)) by (buf_consts; lia).
+  rewrite (buf_w64_small (b_alloc b - b_dlen b)) by (buf_consts; lia).
+  destruct (Z.geb_spec (b_alloc b - b_dlen b) (n + 1)) as [Hfit | Hnofit].
+  { exists ARES_SUCCESS, b. split; [reflexivity|]. split; [exact Hi|]. split; [left; reflexivity|].
+    split; [auto|]. right. left. repeat split; try lia; try exact Ec.
+    destruct Hi as (_ & _ & [Hs | [Hs | Hs]]).
+    - destruct Hs as (_ & _ & _ & Hd0 & Ha0). lia.
+    - destruct Hs as (Hd & Ha & _). rewrite Hd, Ha in Ec. discriminate.
+    - destruct Hs as (_ & Ha & _). exact Ha. }
+  destruct (buf_reclaim_refines b Hi) as (b1 & Hr & Hi1 & Habs1 & Ha1 & Hd1 & Hhd1 & Hha1 & Hb1).
+  rewrite Hr. cbn [bind].
+  pose proof (buf_inv_mem_len b1 Hi1) as [Hm1 Hl1].
+  assert (0 <= b_off b1 <= b_dlen b1) as Ho1 by (destruct Hi1 as (Ho1 & _); exact Ho1).
+  rewrite (buf_w64_small (b_alloc b1 - b_dlen b1)) by (buf_consts; lia).
+  assert (buf_not_const b1) as Ec1 by (unfold buf_not_const; rewrite Hhd1, Hha1; exact Ec).
+  destruct (Z.geb_spec (b_alloc b1 - b_dlen b1) (n + 1)) as [Hfit1 | Hnofit1].
+  { exists ARES_SUCCESS, b1. split; [reflexivity|]. split; [exact Hi1|]. split; [right; exact Habs1|].
+    split; [auto|]. right. left. repeat split; try lia; try exact Ec.
+    destruct Hi1 as (_ & _ & [Hs | [Hs | Hs]]).
+    - destruct Hs as (_ & _ & _ & Hd0 & Ha0). lia.
+    - destruct Hs as (Hd & Ha & _). unfold buf_not_const in Ec1. rewrite Hd, Ha in Ec1. discriminate.
+    - destruct Hs as (_ & Ha & _). exact Ha. }
+  set (a0 := if b_alloc b1 =? 0 then 16 else b_alloc b1).
+  assert (0 < a0 < BUF_ALLOC_LIMIT /\ b_dlen b1 <= a0 /\ b_alloc b1 <= a0 /\ (a0 = 16 \/ a0 = b_alloc b1)) as (Ha0 & Hda0 & Haa0 & Ha0c).
+  { unfold a0. destruct (Z.eqb_spec (b_alloc b1) 0) as [He | Hne]; buf_consts; lia. }
+  destruct (buf_grow_loop_ok 64 a0 (b_dlen b1) (n + 1)) as (a & Hloop & Hg1 & Hg2 & Hg3 & Hg4);
+    try (buf_consts; change (2 ^ 63) with 9223372036854775808; lia).
+  rewrite Hloop. cbn [bind].
+  unfold buf_alloc_answer.
+  destruct (ok && (a <? BUF_ALLOC_LIMIT)) eqn:Eans.
+  - apply andb_true_iff in Eans. destruct Eans as [_ Ealim]. apply Z.ltb_lt in Ealim.
+    eexists ARES_SUCCESS, _. split; [reflexivity|].
+    assert (buf_zlen (b_mem b1) = b_alloc b1) as Hmz1.
+    { destruct Hi1 as (_ & _ & [Hs | [Hs | Hs]]).
+      - destruct Hs as (_ & _ & Hm0 & _ & Ha0'). rewrite Hm0, Ha0'. reflexivity.
+      - destruct Hs as (Hd & Ha & _). unfold buf_not_const in Ec1. rewrite Hd, Ha in Ec1. discriminate.
+      - destruct Hs as (_ & _ & Hz & _). exact Hz. }
+    assert (buf_zlen (b_mem b1 ++ buf_junk_block junk (buf_zlen (b_mem b1)) a) = a) as Hnz.
+    { rewrite buf_zlen_app, buf_junk_block_zlen by lia. lia. }
+    split; [|split; [|split]].
+    + destruct Hi1 as (_ & Ht1 & _). split; [exact Ho1|]. split; [exact Ht1|].
+      right. right. unfold buf_shape_dyn. cbn [b_hasdata b_hasabuf b_mem b_dlen b_alloc].
+      repeat split; lia.
+    + assert (buf_abs (mkBuf (b_mem b1 ++ buf_junk_block junk (buf_zlen (b_mem b1)) a) (b_dlen b1) a (b_off b1) (b_tag b1) true true) = buf_abs b1) as Eabs.
+      { apply buf_abs_same_data; try reflexivity.
+        - unfold buf_data. cbn [b_mem b_dlen]. apply buf_take_app_l. lia.
+        - cbn [b_hasdata b_hasabuf]. symmetry. exact Ec1. }
+      rewrite Eabs. right. exact Habs1.
+    + intros Hj Hb. cbn [b_mem]. apply buf_bytes_ok_app; [apply Hb1, Hb | apply buf_junk_block_bytes, Hj].
+    + right. left. cbn [b_hasabuf b_dlen b_alloc]. repeat split; try lia. exact Ec.
+  - exists ARES_ENOMEM, b1. split; [reflexivity|]. split; [exact Hi1|]. split; [right; exact Habs1|].
+    split; [auto|]. right. right. split; [reflexivity|]. split; [exact Ec|].
+    apply andb_false_iff in Eans. destruct Eans as [Eok | Elim]; [left; exact Eok|].
+    right. apply Z.ltb_ge in Elim. destruct Hg4 as [Hg4 | Hg4]; [|right; lia].
+    destruct Ha0c as [Ha16 | Haeq]; [buf_consts; lia|]. left. lia.
+Qed.
+
+(* ------------------------------------------------------------------------------------- *)
+(* append                                                                                  *)
+(* ------------------------------------------------------------------------------------- *)
+
+(* writing [bytes] behind the data of a dynamic buffer with enough room *)
+Lemma buf_write_tail_abs b1 bytes :
+  buf_inv b1 -> b_hasabuf b1 = true -> b_dlen b1 + buf_zlen bytes < b_alloc b1 ->
+  let b' := mkBuf (buf_mem_write (b_mem b1) (b_dlen b1) bytes) (b_dlen b1 + buf_zlen bytes)
+                  (b_alloc b1) (b_off b1) (b_tag b1) (b_hasdata b1) (b_hasabuf b1) in
+  buf_inv b' /\ buf_abs b' = spec_app (buf_abs b1) bytes /\
+  (buf_bytes_ok (b_mem b1) -> buf_bytes_ok bytes -> buf_bytes_ok (b_mem b')).
+Proof.
+  intros Hi Ha Hroom b'.
+  pose proof (buf_inv_mem_len b1 Hi) as [Hm Hl].
+  pose proof (buf_data_zlen b1 Hi) as Hdz.
+  pose proof (buf_zlen_nonneg bytes) as Hbn.
+  destruct Hi as (Ho & Ht & Hs).
+  assert (buf_shape_dyn b1) as Hdyn.
+  { destruct Hs as [Hs | [Hs | Hs]]; [destruct Hs as (_ & Ha' & _); congruence | destruct Hs as (_ & Ha' & _); congruence | exact Hs]. }
+  destruct Hdyn as (Hd & _ & Hmz & Hda & Hal).
+  assert (buf_zlen (buf_take (b_dlen b1) (b_mem b1)) = b_dlen b1) as Htz by (apply buf_take_zlen; lia).
+  assert (buf_data b' = buf_data b1 ++ bytes) as Hdata.
+  { unfold buf_data, b'. cbn [b_mem b_dlen]. unfold buf_mem_write.
+    rewrite buf_take_app_r by lia. rewrite Htz.
+    replace (b_dlen b1 + buf_zlen bytes - b_dlen b1) with (buf_zlen bytes) by lia.
+    rewrite buf_take_app_exact by reflexivity. reflexivity. }
+  split; [|split].
+  - split; [cbn [b_off b_dlen b']; lia|]. split; [exact Ht|].
+    right. right. unfold buf_shape_dyn, b'. cbn [b_hasdata b_hasabuf b_mem b_dlen b_alloc].
+    assert (buf_zlen (buf_mem_write (b_mem b1) (b_dlen b1) bytes) = b_alloc b1) as Hz.
+    { unfold buf_mem_write. rewrite !buf_zlen_app, Htz. rewrite buf_drop_zlen by lia. lia. }
+    repeat split; try assumption; lia.
+  - unfold buf_abs, spec_app. cbn [s_pre s_post s_tag s_const].
+    unfold buf_consumed, buf_remaining. rewrite Hdata. unfold b'. cbn [b_off b_tag b_hasdata b_hasabuf].
+    f_equal.
+    + apply buf_take_app_l. lia.
+    + apply buf_drop_app_l. lia.
+  - intros Hb Hbytes. unfold b'. cbn [b_mem]. unfold buf_mem_write.
+    apply buf_bytes_ok_app; [apply buf_bytes_ok_take, Hb|].
+    apply buf_bytes_ok_app; [exact Hbytes | apply buf_bytes_ok_drop, Hb].
+Qed.
+
+(* ares_buf_append: success appends exactly the bytes at the back of the remaining bytes;
+   ENOMEM leaves the abstract value unchanged (up to a reclaim); never UB *)
+Theorem buf_append_refines junk ok b bytes : buf_inv b -> buf_zlen bytes < BUF_ALLOC_LIMIT ->
+  exists st b', buf_append junk ok b bytes = Ok (st, b') /\ buf_inv b' /\
+    In (st, buf_abs b') (spec_append_alts (buf_abs b) bytes) /\
+    ((forall i, 0 <= junk i < 256) -> buf_bytes_ok (b_mem b) -> buf_bytes_ok bytes -> buf_bytes_ok (b_mem b')) /\
+    (st = ARES_ENOMEM -> ok = false \/ BUF_ALLOC_LIMIT <= 2 * b_alloc b \/
+                         BUF_ALLOC_LIMIT <= 2 * (b_dlen b + buf_zlen bytes + 1)).
+Proof.
+  intros Hi Hlen. unfold buf_append, spec_append_alts.
+  pose proof (buf_zlen_nonneg bytes) as Hbn.
+  destruct (Z.eqb_spec (buf_zlen bytes) 0) as [He | Hne].
+  { exists ARES_SUCCESS, b. split; [reflexivity|]. split; [exact Hi|]. split; [left; reflexivity|].
+    split; [auto|]. intros H. discriminate H. }
+  destruct (buf_ensure_space_refines junk ok b (buf_zlen bytes) Hi) as (st & b1 & He & Hi1 & Habs & Hbytes & Hcases); [lia|].
+  rewrite He. cbn [bind fst snd].
+  destruct Hcases as [(Hst & Hc & Hb) | [(Hst & Hnc & Ha1 & Hroom) | (Hst & Hnc & Hwhy)]].
+  - subst st b1. cbn [Z.eqb negb ARES_EFORMERR ARES_SUCCESS].
+    exists ARES_EFORMERR, b. split; [reflexivity|]. split; [exact Hi|]. split.
+    + rewrite Hc. left. reflexivity.
+    + split; [auto|]. intros H. discriminate H.
+  - subst st. cbn [Z.eqb negb ARES_SUCCESS].
+    replace (negb (b_hasabuf b1)) with false by (rewrite Ha1; reflexivity).
+    pose proof (buf_inv_mem_len b1 Hi1) as [Hm1 Hl1].
+    assert (buf_zlen (b_mem b1) = b_alloc b1) as Hmz1.
+    { destruct Hi1 as (_ & _ & [Hs | [Hs | Hs]]).
+      - destruct Hs as (_ & Ha' & _). congruence.
+      - destruct Hs as (_ & Ha' & _). congruence.
+      - destruct Hs as (_ & _ & Hz & _). exact Hz. }
+    replace (buf_zlen (b_mem b1) <? b_dlen b1 + buf_zlen bytes) with false by (symmetry; apply Z.ltb_ge; lia).
+    assert (0 <= b_dlen b1) as Hd0 by (destruct Hi1 as (Ho1 & _); lia).
+    rewrite buf_w64_small by (buf_consts; lia).
+    destruct (buf_write_tail_abs b1 bytes Hi1 Ha1 Hroom) as (Hi' & Habs' & Hb').
+    eexists ARES_SUCCESS, _. split; [reflexivity|]. split; [exact Hi'|]. split.
+    + replace (s_const (buf_abs b)) with false by (symmetry; exact Hnc).
+      rewrite Habs'. destruct Habs as [Habs | Habs]; rewrite Habs; [left | right; left]; reflexivity.
+    + split; [|intros H; discriminate H]. intros Hj Hb Hbs. apply Hb'; [apply Hbytes; assumption | exact Hbs].
+  - subst st. cbn [Z.eqb negb ARES_ENOMEM ARES_SUCCESS].
+    exists ARES_ENOMEM, b1. split; [reflexivity|]. split; [exact Hi1|]. split.
+    + replace (s_const (buf_abs b)) with false by (symmetry; exact Hnc).
+      destruct Habs as [Habs | Habs]; rewrite Habs; [right; right; left | right; right; right; left]; reflexivity.
+    + split; [|intros _; exact Hwhy]. intros Hj Hb Hbs. apply Hbytes; assumption.
+Qed.
